@@ -16,13 +16,14 @@ TRUSTED = [
 ASSUMPTIONS = [
     "Verus unit: BytesMut/Bytes/Uri are external_body types with the assumed specs above; struct UriBuilder {buf, in_path} re-declared by hand (shape scan); byte-string literal contents are opaque (the separator values '?', '&', '=', '/' are checked by the Kani per-call obligations)",
     "Verus unit: push_escaped is external_body with contract 'appends esc(value), in_path unchanged'; its byte-level meaning is the Kani obligations C07.K.push_escaped.*",
-    "the non-_raw wrappers (push_path_parameter, push_query_parameter, optional/list/set variants) are one-line delegations through ToPlain::to_plain and are NOT under contract (fmt machinery; dyn Plain)",
+    "push_path_parameter / push_query_parameter are one-line delegations through `&dyn Plain` / ToPlain::to_plain (fmt machinery; dyn) and are NOT under contract; in the Verus unit push_query_parameter is external_body with the assumed contract 'push_query_parameter(key, v) == push_query_parameter_raw(key, plain text of v)' (declared generic in T instead of &dyn Plain; call sites are textually identical)",
+    "push_set_query_parameter (iteration over BTreeSet has no vstd specification) is NOT under contract",
     "cfg(kani) harness module appended to a scratch copy; the macro crate's encode-set constants are extracted textually into the harness on every run",
 ]
 NOT_DECIDED = [
     "server-side parse_query_params (HashMap + form_urlencoded) and path_param decoding beyond one character",
     "values longer than one character through the real BytesMut path (per-character concatenation is percent-encoding's contract)",
-    "ToPlain wrappers and the list/set/optional query helpers",
+    "ToPlain wrappers push_path_parameter / push_query_parameter and the set query helper",
 ]
 
 def VO(name, vfn, fn, desc, twin=None, known=None):
@@ -36,12 +37,24 @@ VERUS_UNITS = [dict(
            "final buffer == old ++ one separator byte ++ esc(value), nothing else changes (all pre-states, all values)", ["C07.K.push_path_parameter_raw"]),
         VO("C07.V.push_query_parameter_raw.post", "UriBuilder::push_query_parameter_raw", "UriBuilder::push_query_parameter_raw",
            "final buffer == old ++ one separator byte ++ key ++ one byte ++ esc(value); in_path becomes false (all pre-states, keys, values)", ["C07.K.push_query_parameter_raw"]),
+        VO("C07.V.push_optional_query_parameter.post", "UriBuilder::push_optional_query_parameter", "UriBuilder::push_optional_query_parameter",
+           "absent optional: nothing changes (buffer and in_path); present: exactly one pair (all pre-states)"),
+        VO("C07.V.push_list_query_parameter.post", "UriBuilder::push_list_query_parameter", "UriBuilder::push_list_query_parameter",
+           "one key=value pair per supplied value, in order, nothing else, for every list length (loop invariant); an empty list leaves buffer and in_path untouched"),
+        VO("C07.V.lemma_pushed_list_snoc", "lemma_pushed_list_snoc", None, "lemma: appending one pair extends pushed_list"),
+        VO("C07.V.lemma_pushed_list_len", "lemma_pushed_list_len", None, "lemma: pushed_list never shrinks the buffer (induction)"),
         VO("C07.V.build.no_panic", "UriBuilder::build", "UriBuilder::build", "build does not panic: the unwrap() precondition holds for every valid-URI buffer", known="C07-build-panic-over-65534"),
         VO("C07.V.lemma_count_concat", "lemma_count_concat", None, "counting lemma: count distributes over concatenation (induction)"),
         VO("C07.V.lemma_count_absent", "lemma_count_absent", None, "counting lemma: absent character counts 0 (induction)"),
         VO("C07.V.lemma_path_push_structure", "lemma_path_push_structure", None, "a path push adds exactly one '/' and no other delimiter when the escape contains none"),
         VO("C07.V.lemma_query_push_structure", "lemma_query_push_structure", None, "a query push adds exactly one separator and one '=' when key and escape contain none"),
     ])]
+
+def _module_api(ws):
+    """harnesses that use only UriBuilder::new / push_*_raw / push_literal and the two fields"""
+    s = open(os.path.join(_HERE, "uri_builder.kani.rs")).read()
+    a, b = s.index("//@@INTERNALS-BEGIN"), s.index("//@@INTERNALS-END")
+    return s[:a] + s[b + len("//@@INTERNALS-END"):]
 
 def _module(ws):
     s = open(os.path.join(_HERE, "uri_builder.kani.rs")).read()
@@ -57,10 +70,7 @@ def _module(ws):
 def H(name, ob, fns, desc, kind="complete", bound=None, tier="quick", timeout=400):
     return dict(name=name, ob=ob, functions=[(f if "/" in f else U + "::" + f) for f in fns], desc=desc, kind=kind, bound=bound, tier=tier, timeout=timeout)
 
-KANI_UNITS = [dict(
-    name="uri_builder", crate="conjure-http", modpath="private::client::uri_builder::verif_c07",
-    injections=[dict(file=U, module_fn=_module)],
-    harnesses=[
+_ALL_H = [
         H("component_set_membership", "C07.K.component_set.membership", ["const COMPONENT", "const USERINFO", "const PATH", "const QUERY"],
           "for every ASCII byte: in COMPONENT <=> not in [A-Za-z0-9-._~!*'()]; every delimiter/rewritten character is in the set"),
         H("macro_sets_equal", "C07.K.macro_set.equal", ["const COMPONENT", M + "::const COMPONENT", M + "::const USERINFO", M + "::const PATH", M + "::const QUERY"],
@@ -82,7 +92,16 @@ KANI_UNITS = [dict(
         H("push_literal_contract", "C07.K.push_literal", ["UriBuilder::push_literal"], "literal appended unchanged", kind="bounded", bound="literal \"/a/b\""),
         H("empty_values_keep_structure", "C07.K.empty_values", ["UriBuilder::push_path_parameter_raw", "UriBuilder::push_query_parameter_raw"],
           "empty value: the segment / pair is still produced", kind="bounded", bound="2 concrete calls"),
-    ])]
+    ]
+_API = {"push_query_parameter_raw_contract", "push_path_parameter_raw_contract", "push_literal_contract", "empty_values_keep_structure"}
+KANI_UNITS = [
+    # two units so that a refactoring of the private helpers (signature of push_escaped, names of the sets) can only
+    # make the internals unit undecided; the API-level contracts still compile and decide
+    dict(name="uri_builder_api", crate="conjure-http", modpath="private::client::uri_builder::verif_c07",
+         injections=[dict(file=U, module_fn=_module_api)], harnesses=[h for h in _ALL_H if h["name"] in _API]),
+    dict(name="uri_builder_internals", crate="conjure-http", modpath="private::client::uri_builder::verif_c07",
+         injections=[dict(file=U, module_fn=_module)], harnesses=[h for h in _ALL_H if h["name"] not in _API]),
+]
 
 def scan_struct_shape(repo):
     doc = vx(os.path.join(repo, U))
@@ -116,6 +135,10 @@ MUTANTS = [
          expect=["C07.V.push_query_parameter_raw.post", "C07.K.push_query_parameter_raw"]),
     dict(name="path_param_missing_separator", file=U, **{"from": "        self.buf.extend_from_slice(b\"/\");\n        self.push_escaped(parameter);", "to": "        self.push_escaped(parameter);"},
          expect=["C07.V.push_path_parameter_raw.post", "C07.K.push_path_parameter_raw"]),
+    dict(name="empty_list_clears_in_path", file=U, **{"from": "        for value in values {\n            self.push_query_parameter(key, value);\n        }\n    }\n\n    pub fn push_set_query_parameter", "to": "        self.in_path = false;\n        for value in values {\n            self.push_query_parameter(key, value);\n        }\n    }\n\n    pub fn push_set_query_parameter"},
+         expect=["C07.V.push_list_query_parameter.post"]),
+    dict(name="optional_pushes_absent_value", file=U, **{"from": "        if let Some(value) = value {\n            self.push_query_parameter(key, value);\n        }", "to": "        if let Some(value) = value {\n            self.push_query_parameter(key, value);\n        } else {\n            self.push_query_parameter_raw(key, \"\");\n        }"},
+         expect=["C07.V.push_optional_query_parameter.post"]),
     dict(name="query_value_pushed_twice", file=U, **{"from": "        self.buf.extend_from_slice(b\"=\");\n        self.push_escaped(value);", "to": "        self.buf.extend_from_slice(b\"=\");\n        self.push_escaped(value);\n        self.push_escaped(value);"},
          expect=["C07.V.push_query_parameter_raw.post"]),
 ]
